@@ -309,3 +309,52 @@ if __name__ == "__main__":
     os.makedirs("/tmp/gen_try", exist_ok=True)
     print(translate_measures(sys.argv[1] if len(sys.argv) > 1 else "/repo", "/tmp/gen_try", w))
     print(open("/tmp/gen_try/MeasImp.lean").read())
+
+
+def translate_persist(repo, gen, write):
+    """Gen/PersistText.lean: the bodies of `OPF.save` / `OPF.load` as written (logging statements dropped) and the list of
+    classes of the package that customise pickling (`__getstate__`, `__setstate__`, `__reduce__`, `__reduce_ex__`,
+    `__getnewargs__`, `__getnewargs_ex__`, `__deepcopy__`, `__copy__`) — pickling itself is library behaviour outside any
+    model (C19 is partial by nature); what the theorems of Props/C19.lean pin down is that the library adds nothing to it."""
+    head = ["/- GENERATED by tools/translate_meas.py from /repo/opfython (save/load and pickling hooks) — do not edit. -/",
+            "namespace Opf.Gen.PersistText", ""]
+    try:
+        rel = "opfython/core/opf.py"
+        tree = ast.parse(open(os.path.join(repo, rel)).read())
+        cls = [n for n in tree.body if isinstance(n, ast.ClassDef) and n.name == "OPF"]
+        if not cls:
+            raise Untranslatable(f"{rel}: class OPF not found")
+        out = []
+        for name in ("save", "load"):
+            fn = [n for n in cls[0].body if isinstance(n, ast.FunctionDef) and n.name == name]
+            if not fn:
+                raise Untranslatable(f"{rel}: OPF.{name} not found")
+            stmts = [s for s in fn[0].body if not (isinstance(s, ast.Expr) and isinstance(s.value, ast.Constant))
+                     and not (isinstance(s, ast.Expr) and isinstance(s.value, ast.Call) and ast.unparse(s.value.func).startswith("logger."))]
+            txt = "\n".join(ast.unparse(s) for s in stmts)
+            sig = ", ".join(a.arg for a in fn[0].args.args)
+            out += [f"/-- `OPF.{name}({sig})` ({rel}:{fn[0].lineno}), as written, logging dropped -/",
+                    f"def {name}_body : String := " + '"' + (f"({sig})\n" + txt).replace("\\", "\\\\").replace('"', '\\"').replace("\n", "\\n") + '"', ""]
+        hooks = []
+        HOOKS = {"__getstate__", "__setstate__", "__reduce__", "__reduce_ex__", "__getnewargs__", "__getnewargs_ex__", "__deepcopy__", "__copy__"}
+        for root, _dirs, files in os.walk(os.path.join(repo, "opfython")):
+            for f in sorted(files):
+                if not f.endswith(".py"):
+                    continue
+                pth = os.path.join(root, f)
+                t = ast.parse(open(pth).read())
+                for n in ast.walk(t):
+                    if isinstance(n, ast.ClassDef):
+                        for b in n.body:
+                            if isinstance(b, ast.FunctionDef) and b.name in HOOKS:
+                                hooks.append(f"{os.path.relpath(pth, repo)}:{n.name}.{b.name}")
+        hooks.sort()
+        out += ["/-- classes of the package that customise pickling / copying -/",
+                "def pickle_hooks : List String := [" + ", ".join('"' + h + '"' for h in hooks) + "]", ""]
+        body = out
+        err = None
+    except Untranslatable as ex:
+        body = ['theorem untranslatable : False := by', '  exact (show False from nomatch (⟨⟩ : Unit))  -- ' + str(ex)]
+        err = str(ex)
+    write(os.path.join(gen, "PersistText.lean"), "\n".join(head + body + ["end Opf.Gen.PersistText"]) + "\n")
+    return err
